@@ -53,6 +53,15 @@ MODE_CONFIG = "modes:\n  - m1\n"
 MODE_YAML = "mode:\n  start_events: start_m1\n  stop_events: stop_m1\n  game_mode: false\n  priority: 100\n"
 
 
+def first_of(ctx, sig):
+    """shrink only the first failure of a signature (ddmin re-runs the real code up to 150 times)"""
+    seen = ctx.notes.setdefault("shrunk_signatures", [])
+    if sig in seen:
+        return False
+    seen.append(sig)
+    return True
+
+
 # ---------------------------------------------------------------------------------------------------- generator
 
 def gen_cmd(r, in_prog, anon):
@@ -494,7 +503,7 @@ def check_case(ctx, case, model, shrink=True):
     if bad:
         sig, detail = bad
         small = case
-        if shrink:
+        if shrink and first_of(ctx, sig):
             def fails(ops):
                 c2 = dict(case, ops=ops)
                 b = oracle(DelayRun(c2).run())
@@ -859,7 +868,7 @@ def check_timer_case(ctx, case, shrink=True):
     if bad:
         sig, detail = bad
         small = case
-        if shrink:
+        if shrink and first_of(ctx, sig):
             def fails(ops):
                 b = timer_oracle(TimerRun(dict(case, ops=ops)).run())
                 return b is not None and b[0] == sig
